@@ -8,7 +8,8 @@
      * every shadow block resolves to a block of a page, no two to the same block;
      * usable size: block start + block size = pointer + mi_usable_size (and requested <= usable);
      * the page start stored by the implementation is the one the model computes (Arith.page_start_from_slice);
-     * segment_slices of the implementation = Compose.seg_slices;
+     * segment_slices of the implementation = Compose.seg_slices; pages of normal segments have Compose.slices_needed
+       slices and a block size in the image of Compose.block_size_of (the parameters of the model's fresh_page);
      * mem_inv_b (decides mem_inv, C01_compose_inv_b_spec): span_inv_b of every segment, page_inv_b of every
        page, block size = slice entry, reserved = page area / block size, ghost = complement of the three lists
        (so: every block that is on no list is a block the harness holds, and vice versa), pages = spans in
@@ -115,6 +116,18 @@ let () = Modes.register "compose" (fun records mismatches ->
         L.iter (fun p ->
           if p.p_base = g.g_base then begin
             let (st, _) = Compose.page_area cs p.p_idx in
+            (* a page of a normal segment: the slices mi_segments_page_alloc asks for, and a block size that
+               mi_page_queue / mi_large_huge_page_alloc can produce (Compose.slices_needed / block_size_of) *)
+            if g.g_seg.Span.kind = Span.SegNormal then begin
+              let bs = p.p_page.Page.bsize in
+              let cnt = (Span.get g.g_seg.Span.entries p.p_idx).Span.slice_count in
+              if Compose.slices_needed bs <> cnt then
+                mism "compose op %d: page %s/%s (block size %s) has %s slices, the model's slices_needed gives %s" op (string_of_n g.g_base)
+                  (string_of_n p.p_idx) (string_of_n bs) (string_of_n cnt) (string_of_n (Compose.slices_needed bs));
+              if Compose.block_size_of bs <> bs then
+                mism "compose op %d: page %s/%s: block size %s is not a size-class block size (block_size_of gives %s)" op (string_of_n g.g_base)
+                  (string_of_n p.p_idx) (string_of_n bs) (string_of_n (Compose.block_size_of bs))
+            end;
             if st <> p.p_start then
               mism "compose op %d: page %s/%s (block size %s): page_start impl=%s model=%s" op (string_of_n g.g_base) (string_of_n p.p_idx)
                 (string_of_n p.p_page.Page.bsize) (string_of_n p.p_start) (string_of_n st)
